@@ -72,6 +72,14 @@ def w_forms(cfg):
             acc.bad(("" if cfg == "P" else "[C]") + "cprNL:argument_form:%s" % type(v).__name__,
                     {"cfg": cfg, "lat": lat, "lat_hex": lat.hex(), "form": type(v).__name__})
         acc.out.add((type(v).__name__, lat))
+    # re-entrancy (preemption bound 1): a call suspended before any of its source lines while another call runs in between
+    from engine.util import interleaved_ok
+    bad_, nsch = interleaved_ok(f, [(10.0,), (45.0,), (87.0,), (-88.5,), (0.0,)])
+    acc.n += nsch
+    acc.c["interleaved_schedules"] += nsch
+    for a_, nm_, k_ in bad_:
+        acc.bad(("" if cfg == "P" else "[C]") + "cprNL:answer_changes_when_another_call_runs_in_between",
+                {"cfg": cfg, "lat": float(a_[0]), "lat_hex": float(a_[0]).hex(), "form": "interleave", "preempt_before_line_event": k_})
     # the documented parameter passed by name (a decorator that swallows the signature breaks exactly this)
     from engine.util import kw_call
     for lat in (52.0, 0.0, -87.0, 10, 89.5):
@@ -167,6 +175,10 @@ def run(ctx):
 
 
 def replay(case):
+    if case.get("form") == "interleave":
+        from engine.util import interleaved_ok
+        bad_, _ = interleaved_ok(pm(case["cfg"]).common.cprNL, [(10.0,), (45.0,), (87.0,), (-88.5,), (0.0,)])
+        return [(("" if case["cfg"] == "P" else "[C]") + "cprNL:answer_changes_when_another_call_runs_in_between", case)] if bad_ else []
     if case.get("form") == "keyword":
         from engine.util import kw_call
         lat = float.fromhex(case["lat_hex"])
